@@ -549,12 +549,15 @@ def size_sweep_cases(ctx, kt):
             else:
                 lines.append("op insert b 0 %s b:%s" % (hx(b"a"), hx(b"y" * rng.randrange(0, 10))))
         cases.append(lines)
-    # the builder near the limit
-    for _ in range(ctx.scale(30, 300)):
-        n = rng.randrange(120, 200)
-        seq = rng.choice(seqs)
-        lines = ["key a " + a.spec, "build a 0 %d val/%s/b:%s ip4/7f000001" % (seq, hx(b"zfill"), hx(b"x" * n))]
-        cases.append(lines)
+    # the builder near the limit: every result size 286..310 in 1-byte steps, for several sequence-number widths
+    for seq in (rng.sample(seqs, 3) if ctx.quick else seqs):
+        for target in range(286, 311):
+            pairs = {b"id": rlp_str(b"v4"), a.entry: rlp_str(a.pub), b"ip": rlp_str(bytes([127, 0, 0, 1]))}
+            p2 = gens.pad_to(rng, seq, pairs, target, siglen)
+            if not p2 or b"zfill" not in p2:
+                continue
+            fill = p2[b"zfill"]
+            cases.append(["key a " + a.spec, "build a 0 %d raw/%s/%s ip4/7f000001" % (seq, hx(b"zfill"), hx(fill))])
     return cases
 
 
@@ -659,6 +662,7 @@ def check_C04(ctx):
         compare_cases(ctx, kt, cases, labels, lambda c, h: fields, "c04a", mon_a)
         # (b) histories, then round trips of every distinct record observed
         hcases = hist_cases(ctx, kt, ctx.scale(16, 300), (3, 15))
+        hcases += [c for c in size_sweep_cases(ctx, kt) if any(l.startswith("build") for l in c)]
         res = compare_cases(ctx, kt, hcases, None, lambda c, h: ["enc", "text", "json", "pairs", "seq", "sig"], "c04b")
         seen = {}
         for case, (il, ml) in zip(hcases, res):
@@ -719,6 +723,8 @@ def check_C12(ctx):
         for r in recs:
             eds = gens.text_edits(ctx.rng, r["bytes"])
             case = ["parse " + hx(eds[0][1])]
+            for u in ctx.rng.sample(gens.utf8_strings(ctx.rng, r["bytes"]), 12):
+                eds.append(("utf8_multibyte", u))
             for lab, s in eds[1:]:
                 case.append("parse " + hx(s))
                 if ctx.rng.random() < 0.4:
@@ -937,6 +943,10 @@ def check_C03(ctx):
                 s = gens.b64(b)
                 cases.append(["json " + hx(rng.choice([b'"enr:' + s + b'"', b'"' + s, b"[1,2]", b'{"a":1}', b'"\\u0065nr:' + s + b'"', s]))])
         recs = gens.valid_records(rng, ctx.oracle, gkt, ctx.scale(3, 30))
+        for u in gens.utf8_strings(rng, recs[0]["bytes"]):
+            cases.append(["parse " + hx(u)])
+            if rng.random() < 0.5:
+                cases.append(["json " + hx(b'"' + u + b'"')])
         for r in recs:
             for lab, b in gens.tampers(rng, ctx.oracle, r, recs, ctx.scale(40, 400)):
                 cases.append(["decode " + hx(b)])
@@ -1177,10 +1187,15 @@ def main():
         ctx = Ctx(a.pid, a.tier, seed)
         run_corpus(ctx)
         CHECKS[a.pid](ctx)
-        ctx.oracle.close()
         rc = report(ctx, audit, t0)
+        ctx.oracle.close()
     except InfraError as e:
         print("INFRASTRUCTURE ERROR (no verdict): %s" % e)
+        sys.exit(2)
+    except Exception:
+        import traceback
+        traceback.print_exc()
+        print("INFRASTRUCTURE ERROR (no verdict): the check driver itself failed")
         sys.exit(2)
     sys.exit(rc)
 
